@@ -430,6 +430,7 @@ type (
 		Forall bool
 		Vars   []ParamDecl
 		Body   SExpr
+		Trig   []SExpr // explicit trigger terms, optional
 	}
 	SOld  struct{ X SExpr }
 	SStar struct{} // the [*] wildcard in assigns
@@ -502,7 +503,7 @@ func lexSpec(s string) ([]tok, error) {
 			out = append(out, tok{"str", v})
 			i = j + 1
 		default:
-			ops := []string{"<==>", "==>", "::", "&&", "||", "==", "!=", "<=", ">=", "<<", ">>", "<", ">", "+", "-", "*", "/", "%", "!", "(", ")", "[", "]", ".", ",", ":", "&", "|", "^"}
+			ops := []string{"<==>", "==>", "::", "&&", "||", "==", "!=", "<=", ">=", "<<", ">>", "<", ">", "+", "-", "*", "/", "%", "!", "(", ")", "[", "]", ".", ",", ":", "&", "|", "^", "{", "}"}
 			matched := false
 			for _, op := range ops {
 				if strings.HasPrefix(s[i:], op) {
@@ -825,11 +826,31 @@ func (p *sparser) parsePrimary() (SExpr, error) {
 			if err := p.expect("::"); err != nil {
 				return nil, err
 			}
+			// optional explicit trigger: {e1, e2, ...} (a multi-pattern)
+			var trig []SExpr
+			if p.isOp("{") {
+				p.p++
+				for {
+					e, err := p.parseIff()
+					if err != nil {
+						return nil, err
+					}
+					trig = append(trig, e)
+					if p.isOp(",") {
+						p.p++
+						continue
+					}
+					if err := p.expect("}"); err != nil {
+						return nil, err
+					}
+					break
+				}
+			}
 			body, err := p.parseIff()
 			if err != nil {
 				return nil, err
 			}
-			return &SQuant{t.s == "forall", vars, body}, nil
+			return &SQuant{t.s == "forall", vars, body, trig}, nil
 		case "old":
 			if err := p.expect("("); err != nil {
 				return nil, err
